@@ -72,6 +72,9 @@ func cmdRun(args []string) int {
 		}
 		seed := a.Seed + uint64(i)*a.Stride
 		res.Seeds = append(res.Seeds, seed)
+		if os.Getenv("VERIF_PROGRESS") != "" {
+			fmt.Println("SEED", seed) // progress marker: lets the driver attribute a fatal runtime error
+		}
 		func() {
 			defer func() {
 				if r := recover(); r != nil {
